@@ -7,7 +7,8 @@ From PV Require Import Model.GrpcCall Model.GrpcExample.
 Import ListNotations.
 
 Record hdef := mkH { h_name : gbytes; h_method : gbytes; h_uri : gbytes; h_headers : gmeta;
-                     h_body : option gbytes; h_pp : bool }.
+                     h_body : option gbytes; h_pp : bool;
+                     h_assert : bool }.   (* an assert/response postprocessor on the answer's body *)
 Record hparts := mkP { p_method : gbytes; p_url : gbytes; p_headers : gmeta; p_body : option gbytes }.
 
 Definition rspec (text : gbytes) (v : vars_c) : option gbytes :=
@@ -34,22 +35,40 @@ Fixpoint hsteps_of (defs : list hdef) (idx : list nat) : list hdef :=
   | i :: r => match nth_error defs i with Some d => d :: hsteps_of defs r | None => hsteps_of defs r end
   end.
 
-(* steps of one shot with their variables and the [next] counter after each of them; a step whose
-   templates fail ends the shot (the gun reports a code-0 sample for it) *)
+(* outcome of one step: delivered and accepted / delivered but a postprocessor rejected the answer
+   (one sample with code 0, the shot stops) / templates failed (nothing sent, one sample, code 0) *)
+Inductive hout := HOk (p : hparts) | HPostFail (p : hparts) | HTmplErr.
+
+Fixpoint starts_with (s pre : gbytes) : bool :=
+  match pre, s with
+  | [], _ => true
+  | a :: pr, b :: sr => N.eqb a b && starts_with sr pr
+  | _ :: _, [] => false
+  end.
+Fixpoint has_sub (s sub : gbytes) : bool :=
+  starts_with s sub || match s with [] => false | _ :: r => has_sub r sub end.
+
+(* the in-process target answers "result":"bad" exactly when the request URI contains "nok" *)
+Definition b_nok : gbytes := [110;111;107]%N.
+Definition answer_bad (p : hparts) : bool := has_sub (p_url p) b_nok.
+
+(* steps of one shot with their variables and the [next] counter after each of them *)
 Fixpoint http_shot (users : list (gbytes * gbytes)) (ctr : nat) (cur : vars_c) (sts : list hdef)
-  : list (option hparts) * nat :=
+  : list hout * nat :=
   match sts with
   | [] => ([], ctr)
   | d :: r =>
       let '(v, ctr1) := if h_pp d then (nth_error users (Nat.modulo ctr (length users)), S ctr) else (cur, ctr) in
       match http_render d v with
-      | None => ([None], ctr1)
-      | Some p => let '(rest, c2) := http_shot users ctr1 v r in (Some p :: rest, c2)
+      | None => ([HTmplErr], ctr1)
+      | Some p =>
+          if h_assert d && answer_bad p then ([HPostFail p], ctr1)
+          else let '(rest, c2) := http_shot users ctr1 v r in (HOk p :: rest, c2)
       end
   end.
 
 Fixpoint http_spec (users : list (gbytes * gbytes)) (defs : list hdef) (scens : list (gbytes * list nat))
-         (ctr : nat) (j : nat) (order : list nat) : list (list (option hparts)) :=
+         (ctr : nat) (j : nat) (order : list nat) : list (list hout) :=
   match order with
   | [] => []
   | _ :: rest =>
